@@ -308,4 +308,104 @@ theorem _root_.PP.Infix.infix_roundtrip_general_partial {t : Table} {cs : List C
   simp [preParse, mkNode, hsk, stringEndCheck, hsk2, stringEndImpl, hrl]
 
 
+/-- the statement for class G contains `infix_roundtrip_left_partial`'s (class TL tables, `WFL` trees) -/
+theorem _root_.PP.Infix.infix_roundtrip_general_covers_left {t : Table} {cs : List Char} {re : Bool} (hT : ClassTL t cs re)
+    (e : Ex) (hwf : WFL t cs e) (trail : List Char) (htr : White t.white trail) :
+    ∃ F, ∀ f, F ≤ f →
+      parseString (parseX (fbIds t) (infixGrammar t) (render t e ++ trail) f) (infixGrammar t) rootId t.white
+        (render t e ++ trail) true = .ok (render t e).length [nest t e] :=
+  infix_roundtrip_general_partial hT.toG e (WFL.toWFG e hwf) trail htr
+
+/-- postfix levels alone (the `infix_roundtrip_post` reading): a table whose levels are all POSTFIX is of class G as
+    soon as the spelling conditions hold, so postfix chains `a op op op` of any length give ONE flat group -/
+theorem _root_.PP.Infix.infix_roundtrip_post_partial {t : Table} {cs : List Char} {re : Bool} (hT : ClassG t cs re)
+    (k : Nat) (e : Ex) (wo : List Char) (hwf : WFG t cs (.post k e wo)) (trail : List Char) (htr : White t.white trail) :
+    ∃ F, ∀ f, F ≤ f →
+      parseString (parseX (fbIds t) (infixGrammar t) (render t (.post k e wo) ++ trail) f) (infixGrammar t) rootId t.white
+        (render t (.post k e wo) ++ trail) true
+        = .ok (render t (.post k e wo)).length [.g (nest t (pHead k e) :: pN (opOf t k) (pRest k e ++ [wo]))] := by
+  have := infix_roundtrip_general_partial hT (.post k e wo) hwf trail htr
+  rwa [p_nest t k e wo] at this
+
+/-! ### non-vacuity: a concrete table of class G with KEPT parentheses (postfix `!` tightest, prefix `-`,
+    LEFT-associative `*`, RIGHT-associative `^^` loosest), a tree, and the theorem's conclusion evaluated on it -/
+
+def exTableG : Table :=
+  { white := [' ', '\t', '\n', '\r'],
+    base := mkNode [' ', '\t', '\n', '\r'] (.word ['0', '1', '2', '3'] ['0', '1', '2', '3'] 1 none false false true) false true,
+    lpar := ['('], rpar := [')'], lsup := false, rsup := false,
+    levels := [{ arity := 1, right := false, op1 := ['!'] }, { arity := 1, right := true, op1 := ['-'] },
+               { arity := 2, right := false, op1 := ['*'] }, { arity := 2, right := true, op1 := ['^', '^'] }] }
+
+/-- the same table with a suppressed `(` and a kept `)` -/
+def exTableG' : Table := { exTableG with lsup := true }
+
+/-- `1! !*-2 !! * ( 3 ^^1 )! ^^ 0` -/
+def exTreeG : Ex :=
+  .bin 4
+    (.bin 3
+      (.bin 3 (.post 1 (.post 1 (.atom [] ['1']) []) [' ']) [] (.pre 2 [] (.post 1 (.post 1 (.atom [] ['2']) [' ']) [])))
+      [' '] (.post 1 (.paren [' '] (.bin 4 (.atom [' '] ['3']) [' '] (.atom [] ['1'])) [' ']) []))
+    [' '] (.atom [' '] ['0'])
+
+theorem exTableG_ops : ∀ (i j : Nat) (lvi lvj : Level), exTableG.levels[i]? = some lvi → exTableG.levels[j]? = some lvj →
+    i ≠ j → ¬ lvi.op1 <+: lvj.op1 := by
+  intro i j lvi lvj hi hj hij
+  have hi4 : i < 4 := (List.getElem?_eq_some_iff.mp hi).1
+  have hj4 : j < 4 := (List.getElem?_eq_some_iff.mp hj).1
+  match i, j, hi4, hj4 with
+  | 0, 0, _, _ => exact absurd rfl hij
+  | 1, 1, _, _ => exact absurd rfl hij
+  | 2, 2, _, _ => exact absurd rfl hij
+  | 3, 3, _, _ => exact absurd rfl hij
+  | 0, 1, _, _ | 0, 2, _, _ | 0, 3, _, _ | 1, 0, _, _ | 1, 2, _, _ | 1, 3, _, _
+  | 2, 0, _, _ | 2, 1, _, _ | 2, 3, _, _ | 3, 0, _, _ | 3, 1, _, _ | 3, 2, _, _ =>
+    simp [exTableG] at hi hj; subst hi; subst hj; decide
+
+theorem exTableG_class : ClassG exTableG ['0', '1', '2', '3'] true where
+  base := rfl
+  csW := by decide
+  kinds := by decide
+  lparOk := by decide
+  rparOk := by decide
+  opOk := by decide
+  opsInc := exTableG_ops
+  parInc := by decide
+
+theorem exTableG'_class : ClassG exTableG' ['0', '1', '2', '3'] true where
+  base := rfl
+  csW := by decide
+  kinds := by decide
+  lparOk := by decide
+  rparOk := by decide
+  opOk := by decide
+  opsInc := exTableG_ops
+  parInc := by decide
+
+theorem exTreeG_wf : WFG exTableG ['0', '1', '2', '3'] exTreeG := by
+  simp [exTreeG, WFG, exTableG, White, Ex.lvl]
+
+theorem exTreeG_wf' : WFG exTableG' ['0', '1', '2', '3'] exTreeG := by
+  simp [exTreeG, WFG, exTableG', exTableG, White, Ex.lvl]
+
+/-- the hypotheses of `infix_roundtrip_general_partial` are satisfiable together -/
+example := infix_roundtrip_general_partial exTableG_class exTreeG exTreeG_wf [' ', '\n'] (by simp [White, exTableG])
+example := infix_roundtrip_general_partial exTableG'_class exTreeG exTreeG_wf' [] (by simp [White])
+example := infix_roundtrip_post_partial exTableG_class 1 (.post 1 (.atom [] ['1']) []) [' ']
+  (by simp [WFG, exTableG, White, Ex.lvl]) [] (by simp [White])
+
+example : render exTableG exTreeG = "1! !*-2 !! * ( 3 ^^1 )! ^^ 0".toList := by decide
+
+example : (match parseString (parseX (fbIds exTableG) (infixGrammar exTableG) (render exTableG exTreeG) 80)
+      (infixGrammar exTableG) rootId exTableG.white (render exTableG exTreeG) true with
+    | .ok e ts => some (e, showToks ts)
+    | _ => none) = some (28, "[[[1 ! ! ] * [- [2 ! ! ] ] * [[( [3 ^^ 1 ] ) ] ! ] ] ^^ 0 ] ".toList) := by
+  decide +kernel
+
+example : showTok (nest exTableG exTreeG) = "[[[1 ! ! ] * [- [2 ! ! ] ] * [[( [3 ^^ 1 ] ) ] ! ] ] ^^ 0 ]".toList := by
+  decide +kernel
+
+example : showTok (nest exTableG' exTreeG) = "[[[1 ! ! ] * [- [2 ! ! ] ] * [[[3 ^^ 1 ] ) ] ! ] ] ^^ 0 ]".toList := by
+  decide +kernel
+
 end PP.Infix.Gen
